@@ -63,12 +63,16 @@ void h_tryEnqueueImpl(void)
 
 /* ------------------------------------------------------------------ spawnWorker */
 void ThreadPool_spawnWorker_contract(ThreadPool *self)
-TP_PRE
+__CPROVER_requires(IORA_TRUE && iora_exc == EXC_NONE)
+__CPROVER_requires(__CPROVER_is_fresh(self, sizeof(*self)))
+__CPROVER_requires(!self->_mutex.held && !self->_configMutex.held && self->_tasks.guard == &self->_mutex && self->_threads.guard == &self->_mutex)
+__CPROVER_requires(TP_INV(self) && TP_NOWRAP(self) && ME.spawns == 0)
 __CPROVER_assigns(TP_ASSIGNS)
 /* SP1 */ __CPROVER_ensures(TP_UNLOCKED)
 /* SP2 at most one map entry is added, under the lock */ __CPROVER_ensures(ME.spawns <= 1 && self->_threads.n == LIN.nthreads + ME.spawns)
 /* SP3 never beyond the configured maximum */ __CPROVER_ensures(ME.spawns == 1 ==> LIN.nthreads < self->_maxSize)
 /* SP4 while there is room a worker IS added */ __CPROVER_ensures(LIN.nthreads < self->_maxSize ==> ME.spawns == 1)
+/* SP5 monitor invariant (used where this contract replaces the call: constructor) */ __CPROVER_ensures(TP_INV(self) && TP_NOWRAP(self) && G_acquired)
 ;
 void h_spawnWorker(void)
 {
